@@ -12,8 +12,11 @@ package ops
 //@   ghostset wroteAfterManifest = wroteAfterManifest || manifestWrites > 0
 //@   ghostset manifestWrites = manifestWrites + ite(name == "keyManifest.textproto", 1, 0)
 //@   ghostset objWrites = objWrites + 1
+//@   ghostset clobbers = clobbers + ite(old(diskHas)[name], 1, 0)
+//@   ghostset diskData = ite(err == nil, store(diskData, name, val(contents)), diskData)
 //@   ensures[C10,C11] err == nil ==> diskHas[name]
 //@   ensures[C10,C11] forall(o, string, o != name ==> diskHas[o] == old(diskHas)[o]) && (old(diskHas)[name] ==> diskHas[name])
 
 //@ func ReadFile trusted
 //@   assigns nothing
+//@   ensures err == nil ==> val(result0) == diskData[name]
